@@ -172,6 +172,16 @@ func Normalize(pkgs []*packages.Package, root, modPath string, cur map[string][]
 		return nil, nil, nil
 	}
 	c.fset = mods[0].Fset
+	// loops over a table of constants inside functions the reference does not have
+	// are written out first, in a round of their own
+	if ov := c.unrollTables(mods, root, cur); ov != nil {
+		return ov, c.notes, nil
+	}
+	// a tagless switch that asks such a function in a case expression becomes the if/else chain
+	// it abbreviates (the call can then be merged in like any "else if h(x)")
+	if ov := c.switchesToIfs(mods, root, cur); ov != nil {
+		return ov, c.notes, nil
+	}
 	// candidates
 	cands := map[types.Object]*callee{}
 	for _, p := range mods {
@@ -489,6 +499,7 @@ func (c *ctxT) fileEdits(p *packages.Package, f *ast.File, filename string, src 
 				edits = append(edits, e...)
 				c.used[cal.obj] = true
 				c.nInl[cal.obj]++
+				stack = stack[:len(stack)-1] // Inspect does not call back with nil for a pruned node
 				return false
 			}
 		case *ast.Ident, *ast.SelectorExpr:
@@ -511,6 +522,7 @@ func (c *ctxT) fileEdits(p *packages.Package, f *ast.File, filename string, src 
 			}
 			if lit, ok := c.asLiteral(p, f, src, n.(ast.Expr), recv, cal); ok {
 				edits = append(edits, edit{c.off(n.Pos()), c.off(n.End()), lit})
+				stack = stack[:len(stack)-1]
 				return false
 			}
 		}
@@ -1242,4 +1254,322 @@ func (c *ctxT) tailInline(p *packages.Package, f *ast.File, filename string, src
 	fmt.Fprintf(&sb, "} }\n//line %s:%d\n", filename, c.fset.Position(ret.End()).Line)
 	done[ret] = true
 	return []edit{{c.off(ret.Pos()), c.off(ret.End()), sb.String()}}, true
+}
+
+// unrollTables writes out "for k, v := range T" where T is a composite literal of
+// constants (given in place, or bound once to a local that is used for nothing
+// else), inside functions that the reference decomposition does not have: a
+// maintainer's "check these offsets in a loop" helper then reads, after inlining,
+// like the chain of tests it replaced. Only loops whose body has no break,
+// continue, goto, label or defer are touched; at most 32 elements.
+func (c *ctxT) unrollTables(mods []*packages.Package, root string, cur map[string][]byte) map[string][]byte {
+	var overlay map[string][]byte
+	for _, p := range mods {
+		for i, f := range p.Syntax {
+			filename := p.CompiledGoFiles[i]
+			if strings.HasSuffix(filename, "_test.go") || !strings.HasPrefix(filename, root) {
+				continue
+			}
+			src, err := c.source(filename)
+			if err != nil {
+				continue
+			}
+			var edits []edit
+			for _, d := range f.Decls {
+				fd, ok := d.(*ast.FuncDecl)
+				if !ok || fd.Body == nil || reference[declKey(root, filename, fd)] {
+					continue
+				}
+				ast.Inspect(fd.Body, func(n ast.Node) bool {
+					rs, ok := n.(*ast.RangeStmt)
+					if !ok {
+						return true
+					}
+					if e, ok := c.unrollOne(p, fd, rs, src); ok {
+						edits = append(edits, e...)
+						return false
+					}
+					return true
+				})
+			}
+			if len(edits) == 0 {
+				continue
+			}
+			out, ok := apply(src, edits)
+			if !ok {
+				continue
+			}
+			if overlay == nil {
+				overlay = map[string][]byte{}
+				for k, v := range cur {
+					overlay[k] = v
+				}
+			}
+			overlay[filename] = out
+			c.notes = append(c.notes, fmt.Sprintf("constant-table loop(s) written out in %s", strings.TrimPrefix(filename, root+"/")))
+		}
+	}
+	return overlay
+}
+
+func (c *ctxT) unrollOne(p *packages.Package, fd *ast.FuncDecl, rs *ast.RangeStmt, src []byte) ([]edit, bool) {
+	info := p.TypesInfo
+	if rs.Tok != token.DEFINE && (rs.Key != nil || rs.Value != nil) {
+		return nil, false
+	}
+	var lit *ast.CompositeLit
+	var defStmt ast.Stmt
+	switch x := rs.X.(type) {
+	case *ast.CompositeLit:
+		lit = x
+	case *ast.Ident:
+		obj := info.Uses[x]
+		if obj == nil {
+			return nil, false
+		}
+		uses := 0
+		for _, uo := range info.Uses {
+			if uo == obj {
+				uses++
+			}
+		}
+		if uses != 1 {
+			return nil, false
+		}
+		ast.Inspect(fd.Body, func(n ast.Node) bool {
+			switch y := n.(type) {
+			case *ast.AssignStmt:
+				if y.Tok == token.DEFINE && len(y.Lhs) == 1 && len(y.Rhs) == 1 {
+					if id, ok := y.Lhs[0].(*ast.Ident); ok && info.Defs[id] == obj {
+						if cl, ok := y.Rhs[0].(*ast.CompositeLit); ok {
+							lit, defStmt = cl, y
+						}
+					}
+				}
+			case *ast.DeclStmt:
+				if gd, ok := y.Decl.(*ast.GenDecl); ok && gd.Tok == token.VAR && len(gd.Specs) == 1 {
+					if vs, ok := gd.Specs[0].(*ast.ValueSpec); ok && len(vs.Names) == 1 && len(vs.Values) == 1 && info.Defs[vs.Names[0]] == obj {
+						if cl, ok := vs.Values[0].(*ast.CompositeLit); ok {
+							lit, defStmt = cl, y
+						}
+					}
+				}
+			}
+			return true
+		})
+	}
+	if lit == nil || len(lit.Elts) == 0 || len(lit.Elts) > 32 {
+		return nil, false
+	}
+	at, ok := lit.Type.(*ast.ArrayType)
+	if !ok {
+		return nil, false
+	}
+	if _, isBasic := info.TypeOf(at.Elt).Underlying().(*types.Basic); !isBasic {
+		return nil, false
+	}
+	for _, e := range lit.Elts {
+		if _, isKV := e.(*ast.KeyValueExpr); isKV {
+			return nil, false
+		}
+		if tv, ok := info.Types[e]; !ok || tv.Value == nil {
+			return nil, false
+		}
+	}
+	bad := false
+	ast.Inspect(rs.Body, func(n ast.Node) bool {
+		switch n.(type) {
+		case *ast.FuncLit:
+			bad = true // a closure may capture the iteration variable; leave alone
+		case *ast.BranchStmt, *ast.LabeledStmt, *ast.DeferStmt, *ast.GoStmt:
+			bad = true
+		}
+		return !bad
+	})
+	if bad {
+		return nil, false
+	}
+	name := func(e ast.Expr) string {
+		if id, ok := e.(*ast.Ident); ok {
+			return id.Name
+		}
+		return "_"
+	}
+	kn, vn := "_", "_"
+	if rs.Key != nil {
+		kn = name(rs.Key)
+	}
+	if rs.Value != nil {
+		vn = name(rs.Value)
+	}
+	elt := c.text(src, at.Elt)
+	bpos := c.fset.Position(rs.Body.Lbrace)
+	body := string(src[c.off(rs.Body.Lbrace)+1 : c.off(rs.Body.Rbrace)])
+	var sb strings.Builder
+	sb.WriteString("{ ")
+	for j, e := range lit.Elts {
+		sb.WriteString("{ ")
+		if kn != "_" {
+			fmt.Fprintf(&sb, "var %s int = %d; _ = %s; ", kn, j, kn)
+		}
+		if vn != "_" {
+			fmt.Fprintf(&sb, "var %s %s = %s; _ = %s; ", vn, elt, strings.Join(strings.Fields(c.text(src, e)), " "), vn)
+		}
+		fmt.Fprintf(&sb, "\n//line %s:%d\n", bpos.Filename, bpos.Line)
+		sb.WriteString(body)
+		sb.WriteString("}\n")
+	}
+	epos := c.fset.Position(rs.End())
+	fmt.Fprintf(&sb, "}\n//line %s:%d\n", epos.Filename, epos.Line)
+	edits := []edit{{c.off(rs.Pos()), c.off(rs.End()), sb.String()}}
+	if defStmt != nil {
+		nl := strings.Repeat("\n", bytes.Count(src[c.off(defStmt.Pos()):c.off(defStmt.End())], []byte("\n")))
+		edits = append(edits, edit{c.off(defStmt.Pos()), c.off(defStmt.End()), "/* table written out */" + nl})
+	}
+	return edits, true
+}
+
+// switchesToIfs rewrites "switch { case a, b: S1; case h(x): S2; default: S3 }" into
+// "{ if false {} else if (a) || (b) { S1 } else if (h(x)) { S2 } else { S3 } }" when some case
+// expression calls a function the reference decomposition does not have. Left alone: switches with
+// a tag, a label, a fallthrough, a break that leaves the switch, or a default that is not last.
+func (c *ctxT) switchesToIfs(mods []*packages.Package, root string, cur map[string][]byte) map[string][]byte {
+	newFuncs := map[types.Object]bool{}
+	for _, p := range mods {
+		for i, f := range p.Syntax {
+			filename := p.CompiledGoFiles[i]
+			if strings.HasSuffix(filename, "_test.go") || !strings.HasPrefix(filename, root) {
+				continue
+			}
+			for _, d := range f.Decls {
+				if fd, ok := d.(*ast.FuncDecl); ok && !fd.Name.IsExported() && !reference[declKey(root, filename, fd)] {
+					if obj := p.TypesInfo.Defs[fd.Name]; obj != nil {
+						newFuncs[obj] = true
+					}
+				}
+			}
+		}
+	}
+	if len(newFuncs) == 0 {
+		return nil
+	}
+	var overlay map[string][]byte
+	for _, p := range mods {
+		for i, f := range p.Syntax {
+			filename := p.CompiledGoFiles[i]
+			if strings.HasSuffix(filename, "_test.go") || !strings.HasPrefix(filename, root) {
+				continue
+			}
+			src, err := c.source(filename)
+			if err != nil {
+				continue
+			}
+			var edits []edit
+			labelled := map[ast.Stmt]bool{}
+			ast.Inspect(f, func(n ast.Node) bool {
+				if ls, ok := n.(*ast.LabeledStmt); ok {
+					labelled[ls.Stmt] = true
+				}
+				return true
+			})
+			ast.Inspect(f, func(n ast.Node) bool {
+				sw, ok := n.(*ast.SwitchStmt)
+				if !ok || sw.Tag != nil || labelled[sw] || len(sw.Body.List) == 0 {
+					return true
+				}
+				calls := false
+				okShape := true
+				for k, st := range sw.Body.List {
+					cc := st.(*ast.CaseClause)
+					if cc.List == nil && k != len(sw.Body.List)-1 {
+						okShape = false
+					}
+					for _, e := range cc.List {
+						ast.Inspect(e, func(m ast.Node) bool {
+							if ce, ok := m.(*ast.CallExpr); ok {
+								if obj, _ := calleeObj(p.TypesInfo, ce.Fun); obj != nil && newFuncs[obj] {
+									calls = true
+								}
+							}
+							return true
+						})
+					}
+					// a break that leaves the switch, or a fallthrough
+					var scan func(n ast.Node, depth int)
+					scan = func(n ast.Node, depth int) {
+						ast.Inspect(n, func(m ast.Node) bool {
+							switch x := m.(type) {
+							case *ast.FuncLit:
+								return false
+							case *ast.ForStmt, *ast.RangeStmt, *ast.SwitchStmt, *ast.TypeSwitchStmt, *ast.SelectStmt:
+								if m != n {
+									// an unlabelled break inside belongs to that statement
+									ast.Inspect(m, func(q ast.Node) bool {
+										if b, ok := q.(*ast.BranchStmt); ok && b.Tok == token.FALLTHROUGH {
+											_ = b
+										}
+										return true
+									})
+									return false
+								}
+							case *ast.BranchStmt:
+								if x.Tok == token.FALLTHROUGH || (x.Tok == token.BREAK && x.Label == nil) {
+									okShape = false
+								}
+							}
+							return true
+						})
+					}
+					for _, bs := range cc.Body {
+						scan(bs, 0)
+					}
+				}
+				if !calls || !okShape {
+					return true
+				}
+				head := "{ "
+				if sw.Init != nil {
+					head += c.text(src, sw.Init) + "; "
+				}
+				head += "if false {"
+				edits = append(edits, edit{c.off(sw.Pos()), c.off(sw.Body.Lbrace) + 1, head})
+				for _, st := range sw.Body.List {
+					cc := st.(*ast.CaseClause)
+					var t string
+					if cc.List == nil {
+						t = "} else {"
+					} else {
+						var es []string
+						for _, e := range cc.List {
+							if len(cc.List) == 1 {
+								es = append(es, c.text(src, e))
+							} else {
+								es = append(es, "("+c.text(src, e)+")")
+							}
+						}
+						t = "} else if " + strings.Join(es, " || ") + " {"
+					}
+					edits = append(edits, edit{c.off(cc.Pos()), c.off(cc.Colon) + 1, t})
+				}
+				edits = append(edits, edit{c.off(sw.Body.Rbrace), c.off(sw.Body.Rbrace) + 1, "} }"})
+				return false // nested switches wait for the next round
+			})
+			if len(edits) == 0 {
+				continue
+			}
+			out, ok := apply(src, edits)
+			if !ok {
+				continue
+			}
+			if overlay == nil {
+				overlay = map[string][]byte{}
+				for k, v := range cur {
+					overlay[k] = v
+				}
+			}
+			overlay[filename] = out
+			c.notes = append(c.notes, fmt.Sprintf("tagless switch written as if/else chain in %s", strings.TrimPrefix(filename, root+"/")))
+		}
+	}
+	return overlay
 }
